@@ -1857,6 +1857,12 @@ class KmipEngine(object):
                 attribute_index = attribute_index.value
             attribute_value = payload.attribute.attribute_value
 
+            if attribute_name not in \
+                    self._attribute_policy.get_all_attribute_names():
+                raise exceptions.ItemNotFound(
+                    "No attribute with the specified name exists."
+                )
+
             if not self._attribute_policy.is_attribute_modifiable_by_client(
                 attribute_name
             ):
